@@ -95,6 +95,17 @@ def pool(name, **opts):
                     vs.append(o[1])
             else:
                 lost += 1
+        # numbers of the sibling modules of the same country that this module accepts as well (a VAT number that is a
+        # personal number, a union type over several identifiers): rare kinds the module's own examples do not show
+        if '.' in name:
+            pkg = name.split('.')[0] + '.'
+            for sib in sorted(n for n in core.number_modules() if n.startswith(pkg) and n != name):
+                for x in seeds(sib)[:40]:
+                    o = core.out(m.validate, x, **opts)
+                    if o[0] == 'ok' and isinstance(o[1], str) and o[1] not in seen and core.out(m.validate, o[1], **opts)[0] == 'ok':
+                        seen.add(o[1])
+                        vs.append(o[1])
+                        stats['pool_from_sibling'] += 1
         _pool_cache[key] = (vs, lost)
     return _pool_cache[key][0]
 
@@ -393,6 +404,82 @@ def _boundary_fill(name, opts, out, seen):
                                 out.append(o[1])
 
 
+_pair_cache = {}
+
+
+def pair_pool(name, nbase=1, **opts):
+    """Valid numbers in which every pair of adjacent digit positions of a base number takes all 100 values (check digits
+    repaired): month / day / region / type fields wherever they sit, including offsets such as month+20, +40, +50."""
+    key = (name, nbase, tuple(sorted(opts.items())), core.get_today())
+    if key in _pair_cache:
+        return _pair_cache[key]
+    out, seen = [], set()
+    shapes = {}
+    for v in pool(name, **opts):
+        shapes.setdefault((len(v), ''.join('d' if c.isdigit() else 'a' for c in v)), v)
+    _budget['calls'], _budget['limit'] = 0, _EDGE_LIMIT.get(name, 300000)
+    try:
+        for v in list(shapes.values())[:nbase]:
+            if len(v) > 24:
+                continue
+            for i in range(len(v) - 1):
+                if not (v[i].isdigit() and v[i + 1].isdigit()):
+                    continue
+                for a in string.digits:
+                    for b in string.digits:
+                        if a + b == v[i:i + 2]:
+                            continue
+                        w = synth(name, v[:i] + a + b + v[i + 2:], [(i, a), (i + 1, b)], opts)
+                        if w and w[i:i + 2] == a + b and w not in seen:
+                            seen.add(w)
+                            out.append(w)
+    except _BudgetExceeded:
+        stats['pair_pool_budget_exceeded'] += 1
+    finally:
+        _budget['limit'] = None
+    _pair_cache[key] = out
+    return out
+
+
+_powers_cache = {}
+
+
+def power_boundary_pool(name, **opts):
+    """Valid all-digit numbers whose numeric value sits on a power of a radix a conversion may use (2, 16, 32, 36): m*b^k and
+    its neighbours, as the whole number and as the payload before the final character; check digit repaired."""
+    key = (name, tuple(sorted(opts.items())), core.get_today())
+    if key in _powers_cache:
+        return _powers_cache[key]
+    out, seen = [], set()
+    base = [v for v in pool(name, **opts) if v.isdigit() and 4 <= len(v) <= 12][:1]
+    _budget['calls'], _budget['limit'] = 0, _EDGE_LIMIT.get(name, 300000)
+    try:
+        for v in base:
+            L = len(v)
+            ints = set()
+            for b in (2, 16, 32, 36):
+                k = 1
+                while b ** k < 10 ** L:
+                    for mlt in ([1] if b == 2 else range(1, b)):
+                        for d in (-1, 0, 1):
+                            ints.add(mlt * b ** k + d)
+                    k += 1
+            for n in sorted(ints):
+                for w in (str(n).zfill(L), str(n).zfill(L - 1) + v[-1]):
+                    if len(w) != L:
+                        continue
+                    y = synth(name, w, [(i, w[i]) for i in range(L - 1)], opts)
+                    if y and y not in seen:
+                        seen.add(y)
+                        out.append(y)
+    except _BudgetExceeded:
+        stats['power_pool_budget_exceeded'] += 1
+    finally:
+        _budget['limit'] = None
+    _powers_cache[key] = out
+    return out
+
+
 def valid_numbers(name, raw_fraction=4, **opts):
     """Strategy: canonical valid numbers of `name` (corpus + synthesised)."""
     p = pool(name, **opts)
@@ -689,6 +776,12 @@ def decorations(name, base):
             elif mode == 2:
                 flips = draw(st.lists(st.booleans(), min_size=len(chars), max_size=len(chars)))
                 chars = [c.upper() if f else c for c, f in zip(chars, flips)]
+        # separators that are part of the number itself (mac, casrn, ...) written in another style, each one independently
+        seppos = [i for i, c in enumerate(chars) if c in '-:./ ']
+        if seppos and draw(st.integers(0, 2)) == 0:
+            for i in seppos:
+                if draw(st.integers(0, 2)) == 0:
+                    chars[i] = draw(st.sampled_from(['-', ':', '.', ' ', '/']))
         # insertions at drawn positions (every position reachable, incl. both ends)
         k = draw(st.integers(0, 4))
         if not pr['neutral']:
